@@ -299,6 +299,8 @@ pub fn build(plan: &Plan) -> Box<dyn Root> {
         w.model.group = GroupModel { active: true, stream, keyed, ops_left: ops, marathon: ops >= 200, burst_pending, ..GroupModel::default() };
         w.emit(Ev::RootCreated { fam: w.node(ROOT).fam });
     });
+    // `Default::default()` instead of `new()` in half of the runs without a capacity (StreamGroup's is derived)
+    let use_default = cap.is_none() && from_iter == 0 && with(|w| w.ch.draw("group.ctor.default", 2) == 1);
     // members handed over through FromIterator: their keys are unknown to the harness
     let init: Vec<NodeId> = with(|w| {
         let v: Vec<NodeId> = (0..from_iter).map(|_| new_member(w)).collect();
@@ -311,6 +313,7 @@ pub fn build(plan: &Plan) -> Box<dyn Root> {
             init.iter().map(|&n| SimStream::new(n)).collect::<SG>()
         } else {
             match cap {
+                None if use_default => SG::default(),
                 None => SG::new(),
                 Some(c) => SG::with_capacity(c),
             }
@@ -326,6 +329,7 @@ pub fn build(plan: &Plan) -> Box<dyn Root> {
             init.iter().map(|&n| SimFut::<Val>::new(n)).collect::<FG>()
         } else {
             match cap {
+                None if use_default => FG::default(),
                 None => FG::new(),
                 Some(c) => FG::with_capacity(c),
             }
